@@ -13,3 +13,4 @@ TESTS.append(
       race=True))
 ASSUMPTIONS.append("C14(c): concurrent stress uses the Go scheduler's interleavings (not generated, not replayable bit-for-bit); only a confirmed mutex cycle or leaked lock (no operation completed between two goroutine dumps 2 s apart and every unfinished thread parked in sync.Mutex/RWMutex) is a violation; other time-outs, in particular threads that are still runnable (a livelock cannot be told from slow progress without owning the schedule), are inconclusive")
 ASSUMPTIONS.append("C14(c): the stress threads play a kernel: the fixed directories a/b/c are moved to another parent only under a rename mutex and after an ancestor check (Linux s_vfs_rename_mutex), they keep their names, and no other directory is ever a rename target directory, so no call can move a directory into its own subtree; InstallHooks is not called concurrently with other calls (callers install hooks before a directory is exposed)")
+ASSUMPTIONS.append("C14(c): named attributes in the stress (kinds xattrSet / xattrList / xattrRemove: OPENATTR on a child file or directory, then create+write+close, list+read, remove of an attribute value) are only issued under the NFS handle allocator (the FUSE front end has no OPENATTR); both trees are wired with the in-memory named attributes factory as virtual_build_directory.go InstallHooks() does")
